@@ -20,7 +20,7 @@ LEVELS = {"exploration", "fault_enumeration", "model_checking"}
 
 
 def _write_replay(v: Violation) -> str:
-    d = os.path.join(core.VERIF, "replays", v.prop)
+    d = os.path.join(os.environ.get("VERIF_OUT") or core.VERIF, "replays", v.prop)
     os.makedirs(d, exist_ok=True)
     p = os.path.join(d, v.digest() + ".json")
     with open(p, "w", encoding="utf-8") as f:
@@ -71,7 +71,7 @@ def write_evidence(res: Result, tier: str, wall: float, n_viol: int, known, extr
         "violations": n_viol,
     }
     _validate_evidence(ev)
-    d = os.path.join(core.VERIF, "evidence")
+    d = os.path.join(os.environ.get("VERIF_OUT") or core.VERIF, "evidence")
     os.makedirs(d, exist_ok=True)
     tmp = os.path.join(d, f".{res.prop}.json.tmp")
     with open(tmp, "w", encoding="utf-8") as f:
